@@ -108,19 +108,19 @@ Proof.
 Qed.
 
 Lemma tile_eq t W H s b :
-  exists bg pc, tile t W H s b = Ok (run_ops (canvas W H bg pc) (tile_ops t W H s b)).
+  exists bg pc, tile_filled t W H s b = Ok (run_ops (canvas W H bg pc) (tile_ops t W H s b)).
 Proof.
-  unfold tile.
+  unfold tile_filled.
   destruct (opt_color_ok (x_bg t) 0) as [bg ->]. destruct (opt_color_ok (x_pix t) 65535) as [pc ->].
   exists bg, pc. reflexivity.
 Qed.
 
-Theorem tile_total t W H s b : exists i, tile t W H s b = Ok i.
+Theorem tile_total t W H s b : exists i, tile_filled t W H s b = Ok i.
 Proof. destruct (tile_eq t W H s b) as (bg & pc & ->). eexists; reflexivity. Qed.
 
 (* ---- size ---- *)
 Theorem tile_size t W H s b i :
-  0 <= W -> 0 <= H -> tile t W H s b = Ok i ->
+  0 <= W -> 0 <= H -> tile_filled t W H s b = Ok i ->
   gW (ig i) = W /\ gH (ig i) = H /\ gwib (ig i) = (W + 7) / 8 /\
   zlen (idata i) = (W + 7) / 8 * H /\ bytes_in_range (idata i).
 Proof.
@@ -132,7 +132,7 @@ Proof.
 Qed.
 
 Corollary tile_size_ok t W H s b i :
-  0 <= W -> 0 <= H -> tile t W H s b = Ok i ->
+  0 <= W -> 0 <= H -> tile_filled t W H s b = Ok i ->
   size_ok W H (gW (ig i)) (gH (ig i)) (idata i) = true.
 Proof.
   intros HW HH Ht. destruct (tile_size t W H s b i HW HH Ht) as (E1 & E2 & _ & E4 & E5).
